@@ -71,6 +71,9 @@ def showRes (m : AM) (round : String) (r : Res Fr) : String :=
       let v := match d.2.2.inner with | some p => frHex p.secV | none => "-"
       s!"{strHex d.1}:{k}:{v}"))
   | .result (.responses pid ds) => s!"responses pid={pid} " ++ " ".intercalate (ds.map toString)
+  | .result (.partials pid share n) =>
+    let sh := match share with | some x => frHex x | none => "-"
+    s!"partials pid={pid} n={n} share={sh}"
   | .result (.masterKey pid key poly) =>
     let share := match lookup round m.rings with | some kr => frHex kr.share | none => "-"
     let k := match key with | some k => frHex k | none => "-"
@@ -103,6 +106,13 @@ def airDkgStep (s : AirDkgSt) (toks : List String) : AirDkgSt × String :=
         let fin (x : AM × Res Fr) : AirDkgSt × String := (setM s mi x.1, showRes x.1 round x.2)
         match op with
         | "badpayload" => fin (v, .err)
+        | "sign" =>
+          match rest with
+          | [ok, n] =>
+            let msgs : Option Nat := if n == "-" then none else n.toNat?
+            if n != "-" && msgs.isNone then (s, "bad-op") else
+            fin (signOp v round (ok == "1") msgs)
+          | _ => (s, "bad-op")
         | "commits" =>
           match runP (do let es ← pList pKeyEntry; let poly ← pList pFr; pure (es, poly)) rest with
           | some (es, poly) => fin (commitsOp v round es poly)
